@@ -230,6 +230,9 @@ func runWorkers(bin string, ck *Check, tier, replay, dir string, n int, deadline
 			if replay != "" {
 				env = append(env, "VERIF_REPLAY="+replay)
 			}
+			if os.Getenv("GOGC") == "" {
+				env = append(env, "GOGC=400")
+			}
 			if ck.GoMaxProcs > 0 {
 				env = append(env, "GOMAXPROCS="+strconv.Itoa(ck.GoMaxProcs))
 			}
